@@ -18,14 +18,16 @@ PROP = dict(
                            "state:walk-bound-reached": 1000, "mpt_iterator_consume": 50000,
                            "text:linear": 10000, "text:factor": 10000, "text:range": 10000, "text:values": 10000, "text:mutated": 10000,
                            "direct:boundary": 5000, "direct:linear": 5000, "direct:profile": 10000, "direct:string": 5000, "direct:buffer": 5000,
-                           "direct:from-iterator": 5000, "direct:from-string-iterator": 2000, "string:blank-runs": 2000, "string:extra-reads": 5000, "string:extra-reads-refused": 300, "string:extra-reads-accepted": 1000, "monitor:consume-on-exhausted": 100000, "mpt_values_linear": 3000, "mpt_values_bound": 3000}),
+                           "direct:from-iterator": 5000, "direct:from-string-iterator": 2000, "direct:file": 5000, "file:query-without-destination": 5000, "string:blank-runs": 2000, "string:extra-reads": 5000, "string:extra-reads-refused": 300, "string:extra-reads-accepted": 1000, "monitor:consume-on-exhausted": 100000, "mpt_values_linear": 3000, "mpt_values_bound": 3000}),
               dict(name="c19_cxx", memcheck=500, src=["c19_cxx.cpp"], libs=["mpt++", "mptio", "mptplot", "mptcore"], batch=512, lsan=True,
                    cflags=["-fno-sanitize=vptr"],
                    floors={"source<T>": 100000, "source:backward": 40000, "source:forward": 40000, "c-iterator": 15000,
                            "iterator::value": 1000000, "iterator::advance": 1000000, "iterator::reset": 200000, "iterator::get": 500000,
                            "monitor:closed-form-values": 500000, "monitor:closed-form-count": 100000, "state:read-past-end": 50000,
                            "state:advance-past-end": 50000, "state:empty-source": 5000, "iterator-defaults": 5000,
-                           "io::buffer": 25000, "io::buffer::clone": 25000, "monitor:clone-elements": 30000}),
+                           "io::buffer": 25000, "io::buffer::clone": 25000, "monitor:clone-elements": 30000,
+                           "io::buffer refill": 10000, "refill:into-partially-consumed": 5000, "refill:reset-replays": 5000,
+                           "state:typed-text-array": 10000, "mpt_meta_buffer": 10000, "monitor:walked-elements": 200000}),
               ],
         rule=("case = one source description (PRNG from the grammar of its kind, or a mutated seed description) with one PRNG interleaving of "
               "value/advance/reset/clone/consume of up to 3*min(L,40)+23 steps after the reference walk; non-trivial = a source was created and "
